@@ -811,3 +811,51 @@ func init() {
 		return nil
 	}
 }
+
+func init() {
+	// strings.Builder relies on unsafe; model it on its own fields {addr *Builder; buf []byte}.
+	bld := func(a []value) structure { return (*a[0].(*value)).(structure) }
+	bbuf := func(st structure) []value {
+		b, _ := st[1].([]value)
+		return b
+	}
+	externals["(*strings.Builder).Grow"] = func(fr *frame, a []value) value { return nil }
+	externals["(*strings.Builder).Len"] = func(fr *frame, a []value) value { return len(bbuf(bld(a))) }
+	externals["(*strings.Builder).Cap"] = func(fr *frame, a []value) value { return cap(bbuf(bld(a))) }
+	externals["(*strings.Builder).Reset"] = func(fr *frame, a []value) value { bld(a)[1] = []value(nil); return nil }
+	externals["(*strings.Builder).String"] = func(fr *frame, a []value) value { return mkstr(bbuf(bld(a))) }
+	externals["(*strings.Builder).Write"] = func(fr *frame, a []value) value {
+		st := bld(a)
+		p := cellsOf(a[1])
+		st[1] = append(bbuf(st), p...)
+		return tuple{len(p), iface{}}
+	}
+	externals["(*strings.Builder).WriteString"] = func(fr *frame, a []value) value {
+		st := bld(a)
+		p := strCells(a[1])
+		st[1] = append(bbuf(st), p...)
+		return tuple{len(p), iface{}}
+	}
+	externals["(*strings.Builder).WriteByte"] = func(fr *frame, a []value) value {
+		st := bld(a)
+		st[1] = append(bbuf(st), a[1])
+		return iface{}
+	}
+	externals["(*strings.Builder).WriteRune"] = func(fr *frame, a []value) value {
+		st := bld(a)
+		r, ok := a[1].(int32)
+		if !ok || r >= 0x80 {
+			panic(engineError{"strings.Builder.WriteRune: non-ASCII or symbolic rune"})
+		}
+		st[1] = append(bbuf(st), byte(r))
+		return tuple{1, iface{}}
+	}
+}
+
+func init() {
+	externals["(runtime.errorString).Error"] = func(fr *frame, a []value) value {
+		s, _ := a[0].(string)
+		return "runtime error: " + s
+	}
+	externals["(*runtime.TypeAssertionError).Error"] = func(fr *frame, a []value) value { return "interface conversion error" }
+}
